@@ -69,24 +69,37 @@ Proof. exact interval. Qed.
 Print Assumptions C20_interval.
 
 (* "a subchannel whose connection attempt failed waits at least that backoff before
-   trying again": a failed attempt at time t with index i arms the timer t + Backoff(i);
-   while virtual time stays below the timer no dial happens and the wait stays armed *)
-Theorem C20_failed_attempt_arms_backoff : forall c s, okmode s = false ->
-  dial c s = mkp (now s) false (idx s) (PBackoff (now s + bo c (idx s))).
+   trying again": an attempt that fails at once at time t with index i arms the timer
+   t + Backoff(i); an attempt that fails slowly (after fail_after = min(h, connect
+   deadline)) fixes backoffFor = Backoff(i) at its start and arms the timer
+   (failure time) + backoffFor - the wait is counted from the failure, not from the start
+   of the attempt; while virtual time stays below the timer no dial happens *)
+Theorem C20_failed_attempt_arms_backoff : forall c s, okmode s = false -> fdelay s <= 0 ->
+  dial c s = mkp (now s) false (idx s) (PBackoff (now s + bo c (idx s))) (fdelay s) true.
 Proof. exact dial_fail. Qed.
 Print Assumptions C20_failed_attempt_arms_backoff.
+Theorem C20_slow_attempt_in_flight : forall c s, okmode s = false -> 0 < fdelay s ->
+  ph (dial c s) = PConnecting (now s + fail_after c (idx s) (fdelay s)) (bo c (idx s)).
+Proof. exact dial_fail_slow. Qed.
+Print Assumptions C20_slow_attempt_in_flight.
+Theorem C20_wait_counts_from_failure : forall fuel c target s t b, ph s = PConnecting t b -> t <= target ->
+  advance (S fuel) c target s =
+  advance fuel c target (mkp t (okmode s) (idx s) (PBackoff (t + b)) (fdelay s) true).
+Proof. exact advance_slow_failure. Qed.
+Print Assumptions C20_wait_counts_from_failure.
 Theorem C20_wait_at_least : forall fuel c target s t, ph s = PBackoff t -> target < t ->
-  advance fuel c target s = Some (mkp target (okmode s) (idx s) (PBackoff t), []).
+  advance fuel c target s = Some (mkp target (okmode s) (idx s) (PBackoff t) (fdelay s) (sticky s), []).
 Proof. exact advance_waits. Qed.
 Print Assumptions C20_wait_at_least.
 
 (* "unless the backoff is explicitly reset": ResetConnectBackoff during a wait dials at
-   once and zeroes the index *)
-Theorem C20_reset_cuts_wait : forall c s t, ph s = PBackoff t -> okmode s = false ->
-  pstep c s [4] = Some (mkp (now s) false 0 (PBackoff (now s + bo c 0)), [1; now s; 3]).
+   once and zeroes the index (model and driver skip it while a dial is in flight) *)
+Theorem C20_reset_cuts_wait : forall c s t, ph s = PBackoff t -> okmode s = false -> fdelay s <= 0 ->
+  pstep c s [4] = Some (mkp (now s) false 0 (PBackoff (now s + bo c 0)) (fdelay s) true, [1; now s; 3]).
 Proof. exact reset_dials_now. Qed.
 Print Assumptions C20_reset_cuts_wait.
-Theorem C20_reset_zeroes_index : forall c s s' o, pstep c s [4] = Some (s', o) -> idx s' = 0.
+Theorem C20_reset_zeroes_index : forall c s s' o, (forall t b, ph s <> PConnecting t b) ->
+  pstep c s [4] = Some (s', o) -> idx s' = 0.
 Proof. exact reset_idx. Qed.
 Print Assumptions C20_reset_zeroes_index.
 
@@ -98,7 +111,8 @@ Print Assumptions C20_reset_on_success.
 (* The executable predicate evaluated on implementation traces (clauses 1-4, 7, 8; with
    5/6 never raised) holds on every trace the model produces, for all op lists of any
    length: configurations of the documented interval, draws in [0, 1-2^-53], n >= 0, and
-   any sequence of pacing ops (dial outcome, time passing, reset, drop, connect).  The
+   any sequence of pacing ops (dial outcome, time passing, reset, drop, connect, slowly
+   failing dials).  The
    pacing clauses are decided by a monitor that sees only the observed dial times. *)
 Theorem C20_holds_on_every_model_trace : forall cfg c ops obs,
   decode_cfg cfg = Some c -> cfg_wf c = true -> forallb op_wf ops = true ->
@@ -125,8 +139,8 @@ Example C20_witness :
   | Some c => cfg_wf c && (backoff c 1 0%float =? 1280000000) && (backoff c 200 rmax =? 144000000000)
   | None => false
   end = true /\
-  forallb op_wf [[1; 3; 0]; [6]; [3; 3500000]; [2; 1]; [3; 10000000]; [5]; [2; 0]; [6]; [4]] = true /\
-  run C20_paccfg [[1; 3; 0]; [6]; [3; 3500000]; [2; 1]; [3; 10000000]; [5]; [2; 0]; [6]; [4]] =
+  forallb op_wf [[1; 3; 0]; [6]; [3; 3500000]; [2; 1]; [3; 10000000]; [5]; [2; 0]; [6]; [4]; [7; 400000]; [3; 1000000]; [3; 2000000]] = true /\
+  run C20_paccfg [[1; 3; 0]; [6]; [3; 3500000]; [2; 1]; [3; 10000000]; [5]; [2; 0]; [6]; [4]; [7; 400000]; [3; 1000000]; [3; 2000000]] =
     Some [[3000000]; [1; 0; 3]; [2; 1000000; 3000000; 3]; [0; 3]; [1; 6000000; 2]; [0; 0]; [0; 0];
-          [1; 13500000; 3]; [1; 13500000; 3]].
+          [1; 13500000; 3]; [1; 13500000; 3]; [0; 3]; [1; 14500000; 3]; [0; 3]].
 Proof. vm_compute. repeat split. Qed.
